@@ -1166,7 +1166,9 @@ class Model:
                                     start_mx.is_symbolic()
                                     and str(start_mx) != str(sign * alias_start_mx)
                                 )
-                                or start != alias_start_mx
+                                # The comparison of two symbolic starts is itself symbolic and
+                                # has no truth value; anything not provably equal is a conflict.
+                                or not (start_mx != alias_start_mx).is_zero()
                             ):
                                 logger.warning(
                                     "Current start attribute of canonical variable '{}' ({})"
